@@ -303,7 +303,10 @@ func c19BigScope(ns []int) *drv.Scope {
 	size := uint64(len(ns) * 5 * 5 * 5)
 	gen := func(idx uint64) (Paths, Paths, string) { return c19BigGenD(ns, idx) }
 	return &drv.Scope{Name: "large-family", Level: 7, Size: size, Chunk: 1,
-		Show: func(idx uint64) any { _, _, d := gen(idx); return d + " (shapes: 0 star, 1 comb, 2 star polygon {n/k}, 3 spiral band, 4 LCG scribble; radius 1e5)" },
+		Show: func(idx uint64) any {
+			_, _, d := gen(idx)
+			return d + " (shapes: 0 star, 1 comb, 2 star polygon {n/k}, 3 spiral band, 4 LCG scribble; radius 1e5)"
+		},
 		Run: func(c *drv.Ctx, idx uint64) {
 			S, C, _ := gen(idx)
 			for _, fr := range allFillRules {
@@ -336,7 +339,7 @@ func init() {
 		Rule: "closed boolean scopes (as C01) x 4 fill rules; per input the seven solutions U, I, D(S,C), D(C,S), X, U(S), U(C); exact (math/big) shoelace areas of the solutions (used only when the C02 oracle holds for them) must satisfy the four area identities within 2 x total input edge length; " +
 			"at every witness > 2 units from the input edges the library's own solutions must satisfy: {D(S,C), I, D(C,S)} partition U, X = U minus I, D(S,C) = S minus I, U = S or C, I = S and C; UnionPaths64(S) bit-identical to Union with nil and with empty clip. " +
 			"plus a parametric large family (stars, combs, star polygons, spiral bands, LCG scribbles; N in {64,256,1024,2048}; 5x5 shape pairs x 5 placements) enumerated completely over its parameter grid (area identities only). non-trivial = input with non-empty intersection and difference",
-		Assumptions: []string{"small-scope hypothesis for the lattice scopes; the large family is a finite parameter grid, not all large inputs", "areas are region areas because the C02 oracle is evaluated on the same outputs (cases where it fails are counted and left to C02)"},
+		Assumptions:      []string{"small-scope hypothesis for the lattice scopes; the large family is a finite parameter grid, not all large inputs", "areas are region areas because the C02 oracle is evaluated on the same outputs (cases where it fails are counted and left to C02)"},
 		RequiredCounters: []string{"inputs_with_nonempty_I_and_D", "union_wrapper_checked", "large_inputs_with_nonempty_I_and_D"},
 		Scopes: func(tier string) []*drv.Scope {
 			var out []*drv.Scope
